@@ -525,6 +525,17 @@ func (w *World) callWrites(c *ssa.CallCommon, ws *WriteSet, g *Gen, encl *ssa.Fu
 		if fn != nil && len(fn.Blocks) > 0 && w.isRepoFunc(fn) && w.writeSet(fn, nil).Recvs {
 			ws.Recvs = true
 		}
+		if ct.Flags["writes_args"] != "" {
+			for _, a := range c.Args {
+				v := a
+				if mi, ok := v.(*ssa.MakeInterface); ok {
+					v = mi.X
+				}
+				if _, ok := v.Type().Underlying().(*types.Pointer); ok {
+					w.ptrWrites(v, ws)
+				}
+			}
+		}
 		if pn := ct.Flags["frame_of_param"]; pn != "" && fn != nil {
 			found := false
 			for i, prm := range fn.Params {
@@ -671,7 +682,11 @@ func heapVarSortByName(n string) Sort {
 		return SInt
 	}
 	if strings.HasPrefix(n, "MapDom.") {
-		return ArrSort(SInt, ArrSort(tagSort(n[len("MapDom."):]), SBool))
+		k := n[len("MapDom."):]
+		if i := strings.Index(k, "."); i >= 0 {
+			k = k[:i]
+		}
+		return ArrSort(SInt, ArrSort(tagSort(k), SBool))
 	}
 	if strings.HasPrefix(n, "MapVal.") {
 		rest := n[len("MapVal."):]
